@@ -153,4 +153,13 @@ PROPS = {
         statement="lock-hierarchy deadlock freedom, mutual exclusion of lock-wrapped ops, fan-out race freedom; any thread count",
         partial="proved: deadlock freedom and mutual exclusion of the lock protocol for any number of threads and any disciplined programs; the regenerated programs of the public methods are disciplined (decide). Linearizability itself is argued from mutual exclusion + 'every public method is one critical section' and is checked on recorded concurrent histories (porcupine); it is not a Lean theorem. Data-race freedom of the fan-out goroutines rests on two regenerated facts (synchronised random source, one goroutine per tree) and the race detector",
     ),
+    "C11": dict(
+        modules=["Syzgy.Props.C11"], ties=["Snapshot"],
+        runs={"quick": [["snapshot-C11", "--scenarios", "40"]], "thorough": [["snapshot-C11", "--scenarios", "600"]]},
+        trusted=["page faults on unmapped memory and the race detector's blindness to mapped memory are runtime facts; the model represents them as 'view of a dead generation'",
+                 "the provenance table (which API field is a copy) is tied to the source by the statement shapes of getDocument and of the listing branch (regenerated facts) and by the pointer-in-mapping test at return time",
+                 "decodeVector allocates a fresh slice (make) for every returned vector"],
+        statement="every returned value has provenance copy ⇒ stable; inputs are not retained",
+        partial="'inputs_not_retained' is checked on the implementation only (caller slices mutated after the call); the model records provenance of results",
+    ),
 }
